@@ -598,6 +598,18 @@ class RDBStorage(BaseStorage, BaseHeartbeat):
             distribution_json=distributions.distribution_to_json(distribution),
         )
 
+        existing_trial_param = models.TrialParamModel.find_by_trial_and_param_name(
+            trial, param_name, session
+        )
+        if existing_trial_param is not None:
+            # Overwrite the parameter that has already been set to this trial.
+            trial_param._check_compatibility_with_previous_trial_param_distributions(
+                session, trial.study_id
+            )
+            existing_trial_param.param_value = trial_param.param_value
+            existing_trial_param.distribution_json = trial_param.distribution_json
+            return
+
         trial_param.check_and_add(session, trial.study_id)
 
     def get_trial_param(self, trial_id: int, param_name: str) -> float:
